@@ -3,37 +3,37 @@
 From Boltons Require Import Lib.Prelude Lib.C12_Base Spec.C12_Spec Model.C12_Model.
 
 Inductive c12_case :=
-(* a BufferedSocket(sock, timeout, maxsize=mx, recvsize=rs) over a scripted
+(* a BufferedSocket(sock, timeout, maxsize=mx, recvsize=rs), d = bool(timeout), over a scripted
    socket: receiving network n, sending script sc; the calls made with what the
    implementation returned/raised and the public views after each; the full
    public view at the end *)
-| BSCase (mx rs : nat) (n : net) (sc : list sev) (steps : list (op * step_obs)) (fin : final_obs)
+| BSCase (mx rs : nat) (d : bool) (n : net) (sc : list sev) (steps : list (op * step_obs)) (fin : final_obs)
 (* a writing NetstringSocket(maxsize=wmax) over a recording socket with script
    wsc, what reached its wire; a reading NetstringSocket(maxsize=rmax) over the
    network n whose stream is that wire followed by junk *)
 | NSCase (wmax : nat) (wsc : list sev) (wsteps : list (nsop * step_obs)) (wwire : bytes)
-         (rmax : nat) (n : net) (junk : bytes) (rsteps : list (nsop * step_obs)).
+         (rmax : nat) (rd : bool) (n : net) (junk : bytes) (rsteps : list (nsop * step_obs)).
 
 Definition steps_eqb {A} (l1 l2 : list (A * step_obs)) : bool :=
   list_eqb (fun a b => step_obs_eqb (snd a) (snd b)) l1 l2.
 
 Definition c12_agree (c : c12_case) : bool :=
   match c with
-  | BSCase mx rs n sc steps fin =>
+  | BSCase mx rs d n sc steps fin =>
       let len := length (flat n) in
-      let '(obs, s) := run len (bs_init mx rs n sc) (map fst steps) in
+      let '(obs, s) := run len (bs_init_dl mx rs d n sc) (map fst steps) in
       steps_eqb obs steps && final_obs_eqb (final_view len s) fin
-  | NSCase wmax wsc wsteps wwire rmax n junk rsteps =>
+  | NSCase wmax wsc wsteps wwire rmax rd n junk rsteps =>
       let '(wobs, w) := ns_run true 0 (ns_init wmax [] wsc) (map fst wsteps) in
-      let '(robs, _) := ns_run false (length (flat n)) (ns_init rmax n []) (map fst rsteps) in
+      let '(robs, _) := ns_run false (length (flat n)) (ns_init_dl rmax rd n []) (map fst rsteps) in
       steps_eqb wobs wsteps && bytes_eqb (wire (ns_bs w)) wwire && steps_eqb robs rsteps
   end.
 
 Definition c12_holds (c : c12_case) : bool :=
   match c with
-  | BSCase mx rs n sc steps fin =>
-      spec_holds (flat n) mx (intrs n) (sintrs sc) steps fin
-  | NSCase wmax wsc wsteps wwire rmax n junk rsteps =>
+  | BSCase mx rs d n sc steps fin =>
+      spec_holds (flat n) mx (intrs n) (sintrs sc) d steps fin
+  | NSCase wmax wsc wsteps wwire rmax rd n junk rsteps =>
       spec_ns_holds wmax (sintrs wsc) wsteps wwire rmax (flat n) junk (intrs n) rsteps
   end.
 
@@ -47,12 +47,12 @@ Inductive c12_explanation :=
 
 Definition c12_explain (c : c12_case) : c12_explanation :=
   match c with
-  | BSCase mx rs n sc steps fin =>
+  | BSCase mx rs d n sc steps fin =>
       let len := length (flat n) in
-      let '(obs, s) := run len (bs_init mx rs n sc) (map fst steps) in
+      let '(obs, s) := run len (bs_init_dl mx rs d n sc) (map fst steps) in
       EBS (map snd obs) (final_view len s)
-  | NSCase wmax wsc wsteps wwire rmax n junk rsteps =>
+  | NSCase wmax wsc wsteps wwire rmax rd n junk rsteps =>
       let '(wobs, w) := ns_run true 0 (ns_init wmax [] wsc) (map fst wsteps) in
-      let '(robs, _) := ns_run false (length (flat n)) (ns_init rmax n []) (map fst rsteps) in
+      let '(robs, _) := ns_run false (length (flat n)) (ns_init_dl rmax rd n []) (map fst rsteps) in
       ENS (map snd wobs) (wire (ns_bs w)) (map snd robs)
   end.
